@@ -9,9 +9,10 @@
 
 #include "asn1p_integer.h"
 
-#define ASN_INTEGER_MAX    \
-    (~((asn1c_integer_t)0) \
-     & ~((asn1c_integer_t)1 << (8 * sizeof(asn1c_integer_t) - 1)))
+/* (2^(N-2) - 1) * 2 + 1: no shift into (or out of) the sign bit */
+#define ASN_INTEGER_MAX                                                     \
+    (((((asn1c_integer_t)1 << (8 * sizeof(asn1c_integer_t) - 2)) - 1) * 2) \
+     + 1)
 #define ASN_INTEGER_MIN (-(ASN_INTEGER_MAX)-1)
 
 /*
@@ -127,12 +128,12 @@ int asn1p_itoa_s(char *buf, size_t size, asn1c_integer_t v) {
             case 16:
                 if(size < 41)
                     return -1;
-                memcpy(buf, "-170141183460469231731687303715884105729", 41);
+                memcpy(buf, "-170141183460469231731687303715884105728", 41);
                 return 41;
             case 8:
                 if(size < 21)
                     return -1;
-                memcpy(buf, "-9223372036854775809", 21);
+                memcpy(buf, "-9223372036854775808", 21);
                 return 21;
             default:
                 assert(!"unreachable");
